@@ -8,6 +8,10 @@ random_state.  Per call the harness records five bits (completed, global drawn, 
 instance drawn, global state changed) which the model (Model/Draws.v skeleton of the entry point, executed on
 a toy generator inside Coq) must predict exactly.  Draw counts / shapes / values are never compared.
 
+Static correspondence (corr:C16-static): a Python-ast extraction turns the source of every function / class of
+tensorly with a random_state (seed) parameter into a skeleton term; Coq evaluates the proved join-precise analysis
+global_free_w on it (Props C16_join_precise_analysis) and compares draw-freeness with the hand-written skeletons.
+
 Predicates (on the implementation's outputs, independent of the model): same int seed + perturbed global state
 => bit-identical results; int-seeded call leaves np.random.get_state() untouched; two generators seeded
 identically => identical results and identical final generator states; fit twice on one estimator => identical
